@@ -2,6 +2,7 @@ import Pyunicorn.Lemmas.CrossNsiWhole
 import Pyunicorn.Lemmas.CrossR4
 import Pyunicorn.Lemmas.CrossBetw
 import Pyunicorn.Lemmas.NetBetwKernel
+import Pyunicorn.Lemmas.CrossBetwSymm
 import Pyunicorn.Lemmas.CrossCCN
 import Pyunicorn.Model.CrossISRN
 import Mathlib.Algebra.Order.BigOperators.Group.List
@@ -2319,7 +2320,7 @@ theorem crossOutDegree_int64_accumulation (A : Adj) (L1 L2 : List Nat)
     intro M
     induction M with
     | nil => simp
-    | cons b t ih => simp only [List.map_cons, List.sum_cons]; push_cast; rw [ih]
+    | cons b t ih => simp only [List.map_cons, List.sum_cons, Nat.cast_add, ih]
   have hcast := hcast' L2
   rw [sumW_exact]
   · exact hcast
@@ -3320,5 +3321,122 @@ example : betwAssertHolds false 4 pathAdj = true
   ⟨h.1, h.2.2.2⟩
 
 end BetweennessFull
+
+/-! ## Round 5d
+
+**The betweenness is symmetric in the two groups on undirected networks.**  The model of
+`cross_betweenness(L1, L2)` runs one forward/backward sweep per *target* (`L2`, in the caller's
+order, a target listed twice counted twice) and masks the *sources* (`L1`, a membership mask), so
+the two groups enter the code in entirely different ways.  By C02's/C03's kernel theorem
+(`Nsi.kernel_eq_nsiBetw_net`, Lemmas/NsiBetwKernel.lean) entry `v` is the double sum over pairs
+`(t, s)` of `w_t w_s n*_ts(v) / (w_v n*_ts)` with `n*` a weighted *walk count*; on a symmetric
+adjacency matrix walks can be reversed (`Nsi.wcount_rev`: `w_a · wcount k a b = w_b · wcount k b a`),
+so the pair term is symmetric in `(t, s)` (`Nsi.bcTerm_symm`) and the double sum over `L2 × L1` can
+be exchanged (`Nsi.nsiBetw_symm`, `Nsi.kernel_symm`, Lemmas/CrossBetwSymm.lean).  Hypotheses:
+symmetric adjacency (enforced by the guard of `Network._nsi_betweenness`), positive node weights
+(n.s.i. version only), valid node numbers, and **duplicate-free lists** — necessary: a target listed
+twice counts twice, a source does not (`crossBetweenness_symm_needs_nodup`). -/
+
+section BetweennessSymm
+open Pyunicorn.NetBetw
+
+/-- a duplicate-free list of valid node numbers is a permutation of the increasing enumeration of
+its members -/
+theorem nodup_perm_filter (n : Nat) (L : List Nat) (h : ∀ t, t ∈ L → t < n) (d : L.Nodup) :
+    L.Perm ((List.range n).filter fun v => decide (v ∈ L)) := by
+  apply (List.perm_ext_iff_of_nodup d (List.nodup_range.filter _)).mpr
+  intro a
+  simp only [List.mem_filter, List.mem_range, decide_eq_true_eq]
+  exact ⟨fun ha => ⟨h a ha, ha⟩, fun ha => ha.2⟩
+
+/-- **`nsi_cross_betweenness(L1, L2) = nsi_cross_betweenness(L2, L1)`** on every undirected network
+(symmetric `A`) with positive node weights, for all duplicate-free lists `L1`, `L2` of valid node
+numbers in any order (disjoint or overlapping): the whole vector over the nodes of the network, as
+computed by the model of the code (source mask for the first list, one sweep of the kernel
+`_nsi_betweenness` per element of the second). -/
+theorem nsiCrossBetweenness_symm (n : Nat) (A : Adj) (hA : Symm A) (w : Nat → Rat)
+    (hw : ∀ v, v < n → 0 < w v) (L1 L2 : List Nat)
+    (h1 : ∀ t, t ∈ L1 → t < n) (h2 : ∀ t, t ∈ L2 → t < n) (d1 : L1.Nodup) (d2 : L2.Nodup) :
+    nsiCrossBetweenness n A w L1 L2 = nsiCrossBetweenness n A w L2 L1 := by
+  have key : ∀ v, v < n →
+      (nsiCrossBetweenness n A w L1 L2).getD v 0 = (nsiCrossBetweenness n A w L2 L1).getD v 0 := by
+    intro v hv
+    rw [nsiCrossBetweenness_perm n A w (List.Perm.refl L1) (nodup_perm_filter n L2 h2 d2),
+      nsiCrossBetweenness_perm n A w (List.Perm.refl L2) (nodup_perm_filter n L1 h1 d1)]
+    unfold nsiCrossBetweenness
+    rw [srcMask_eq, srcMask_eq]
+    exact Nsi.kernel_symm ⟨n, A, w, fun _ _ _ => 0, fun _ _ => false, Pyunicorn.Net.dist n A⟩
+      hA hw (fun v => decide (v ∈ L1)) (fun v => decide (v ∈ L2)) v hv
+  rw [nsiCrossBetweenness_sum_over_targets n A w L1 L2,
+    nsiCrossBetweenness_sum_over_targets n A w L2 L1] at key ⊢
+  apply List.map_congr_left
+  intro v hv
+  have hv' : v < n := List.mem_range.mp hv
+  have := key v hv'
+  rwa [getD_map_range_rat n _ v hv', getD_map_range_rat n _ v hv'] at this
+
+/-- **`cross_betweenness(L1, L2) = cross_betweenness(L2, L1)`** on every undirected network, for all
+duplicate-free lists of valid node numbers (unit weights: no hypothesis on the node weights) — the
+statement of the property "measures whose definition is symmetric in the two groups return equal
+values for both argument orders" for the betweenness. -/
+theorem crossBetweenness_symm (n : Nat) (A : Adj) (hA : Symm A) (L1 L2 : List Nat)
+    (h1 : ∀ t, t ∈ L1 → t < n) (h2 : ∀ t, t ∈ L2 → t < n) (d1 : L1.Nodup) (d2 : L2.Nodup) :
+    crossBetweenness n A L1 L2 = crossBetweenness n A L2 L1 :=
+  nsiCrossBetweenness_symm n A hA (fun _ => 1) (fun _ _ => by decide) L1 L2 h1 h2 d1 d2
+
+/-- **the count of shortest paths between the groups through `v` is symmetric in the groups**:
+`Σ_{t ∈ L2} Σ_{s ∈ L1} #(shortest t–s paths through v)/#(shortest t–s paths)` over the explicitly
+enumerated shortest paths equals the same sum with the roles of the lists exchanged — the
+"reversal is a bijection between the enumerated shortest `t–s` and `s–t` paths" statement left open
+in round 5b, at the level of the sums of quotients. -/
+theorem interregionalCount_symm (n : Nat) (A : Adj) (hA : Symm A) (L1 L2 : List Nat)
+    (h1 : ∀ t, t ∈ L1 → t < n) (h2 : ∀ t, t ∈ L2 → t < n) (d1 : L1.Nodup) (d2 : L2.Nodup)
+    (v : Nat) (hv : v < n) :
+    interregionalCount n A (Pyunicorn.Net.dist n A) L1 L2 v
+      = interregionalCount n A (Pyunicorn.Net.dist n A) L2 L1 v := by
+  rw [← crossBetweenness_eq_count n A hA L1 L2 h2 v hv,
+    ← crossBetweenness_eq_count n A hA L2 L1 h1 v hv,
+    crossBetweenness_symm n A hA L1 L2 h1 h2 d1 d2]
+
+/-- **the published double sum is symmetric in the groups** (`crossBetweennessDef`, the definition
+with sources `L1` and targets `L2`) -/
+theorem crossBetweennessDef_symm (n : Nat) (A : Adj) (hA : Symm A) (w : Nat → Rat)
+    (hw : ∀ v, v < n → 0 < w v) (L1 L2 : List Nat)
+    (h1 : ∀ t, t ∈ L1 → t < n) (h2 : ∀ t, t ∈ L2 → t < n) (d1 : L1.Nodup) (d2 : L2.Nodup) :
+    crossBetweennessDef n A w L1 L2 = crossBetweennessDef n A w L2 L1 := by
+  rw [← nsiCrossBetweenness_eq_def n A hA w hw L1 L2 h2,
+    ← nsiCrossBetweenness_eq_def n A hA w hw L2 L1 h1]
+  exact nsiCrossBetweenness_symm n A hA w hw L1 L2 h1 h2 d1 d2
+
+/-- **"duplicate-free" cannot be dropped**: on the path 0–1–2–3 the target list `[2, 2]` counts the
+pair (0, 2) twice at node 1, the source list `[2, 2]` counts it once -/
+theorem crossBetweenness_symm_needs_nodup :
+    crossBetweenness 4 (fun a b => a + 1 == b || b + 1 == a) [0] [2, 2]
+      ≠ crossBetweenness 4 (fun a b => a + 1 == b || b + 1 == a) [2, 2] [0] := by
+  decide +kernel
+
+/-! non-vacuity: the path 0–1–2–3, node weights `1, 2, 3, 4`, the overlapping shuffled groups
+`[3, 0]`, `[2, 0]` — all hypotheses hold, the values are non-zero and not trivially equal (the two
+calls run different sweeps: targets `2, 0` against targets `3, 0`) -/
+example : nsiCrossBetweenness 4 pathAdj pathW [3, 0] [2, 0]
+    = nsiCrossBetweenness 4 pathAdj pathW [2, 0] [3, 0] :=
+  nsiCrossBetweenness_symm 4 pathAdj pathAdj_symm pathW (pathW_pos 4) _ _ (by decide) (by decide)
+    (by decide) (by decide)
+example : crossBetweenness 4 pathAdj [3, 0] [2, 0] = crossBetweenness 4 pathAdj [2, 0] [3, 0] :=
+  crossBetweenness_symm 4 pathAdj pathAdj_symm _ _ (by decide) (by decide) (by decide) (by decide)
+example : crossBetweenness 4 pathAdj [2, 0] [3, 0] = [0, 2, 1, 0] := by decide +kernel
+example : (nsiCrossBetweenness 4 pathAdj pathW [2, 0] [3, 0]).getD 1 0 ≠ 0 := by decide +kernel
+example : interregionalCount 4 pathAdj (Pyunicorn.Net.dist 4 pathAdj) [3, 0] [2, 0] 1
+    = interregionalCount 4 pathAdj (Pyunicorn.Net.dist 4 pathAdj) [2, 0] [3, 0] 1 :=
+  interregionalCount_symm 4 pathAdj pathAdj_symm _ _ (by decide) (by decide) (by decide)
+    (by decide) 1 (by decide)
+example : interregionalCount 4 pathAdj (Pyunicorn.Net.dist 4 pathAdj) [2, 0] [3, 0] 1 = 2 := by
+  decide +kernel
+example : crossBetweennessDef 4 pathAdj pathW [3, 0] [2, 0]
+    = crossBetweennessDef 4 pathAdj pathW [2, 0] [3, 0] :=
+  crossBetweennessDef_symm 4 pathAdj pathAdj_symm pathW (pathW_pos 4) _ _ (by decide) (by decide)
+    (by decide) (by decide)
+
+end BetweennessSymm
 
 end Pyunicorn.Cross
